@@ -854,6 +854,18 @@ class LatticeConstraints(keras.constraints.Constraint):
     Raises:
       ValueError: If weights to project don't correspond to `lattice_sizes`.
     """
+    # Like `Lattice`, accept a single constraint given as a bare tuple.
+    (edgeworth_trusts, trapezoid_trusts, monotonic_dominances, range_dominances,
+     joint_monotonicities) = [
+         [c] if isinstance(c, tuple) and isinstance(c[0], int) else c
+         for c in (edgeworth_trusts, trapezoid_trusts, monotonic_dominances,
+                   range_dominances, joint_monotonicities)
+     ]
+    if (isinstance(joint_unimodalities, tuple) and
+        len(joint_unimodalities) == 2 and
+        isinstance(joint_unimodalities[1], six.string_types)):
+      joint_unimodalities = [joint_unimodalities]
+
     lattice_lib.verify_hyperparameters(
         lattice_sizes=lattice_sizes,
         monotonicities=monotonicities,
